@@ -918,6 +918,22 @@ def derived_ok(P, adt, name, src):
                         mp2 = {}
                         if all(mp2.setdefault(ts_[k_], tt_[k_]) == tt_[k_] for k_ in tt_):
                             continue
+                    # ... or path by path: on every feasible path to this construction (a branch that contradicts a variant assigned earlier on the
+                    # path is not feasible) both are constants, and the source constant determines the structure constant
+                    from rulelib import enumerate_paths, path_value, path_feasible
+                    b_site = next(bi_ for bi_, bl_ in enumerate(f.blocks) if bl_ is blk)
+                    k_site = blk["stmts"].index(st)
+                    paths_ = enumerate_paths(f, b_site, max_paths=200)
+                    mp3, okp = {}, bool(paths_) and len(paths_) < 200
+                    for path_ in paths_:
+                        if not okp or not path_feasible(f, path_):
+                            continue
+                        vs_ = path_value(f, path_, rv["ops"][j], (len(path_) - 1, k_site))
+                        vt_ = path_value(f, path_, rv["ops"][i], (len(path_) - 1, k_site))
+                        if vs_ is None or vt_ is None or mp3.setdefault(vs_, vt_) != vt_:
+                            okp = False
+                    if okp and mp3:
+                        continue
                     return False, "%s: %s takes one of %d constants that the %s constants do not determine" % (short_path(f.id), name, len(o[2]), src)
                 if o[0] == "call" and short_path(o[1].best) == "TypeResolver::parse_type_structure":
                     arg = f.describe_origin(f.origin(o[1].args[1]), short=False, deep=4)
